@@ -77,6 +77,23 @@ Theorem C01_readdir_pages_prefix : forall nm ns s i h n,
 Proof. exact readdir_pages. Qed.
 Print Assumptions C01_readdir_pages_prefix.
 
+(* 4. Rename moves the subtree with contents intact.  For a successful Rename (source exists,
+      differs from the target) and every suffix rest = "" or "/…": the name new++rest denotes
+      afterwards exactly what old++rest denoted before (kind, contents, mode, mtime — or nothing),
+      the names at or below old are gone, and every name outside both subtrees is unchanged.
+      (entry_at, atbelow, suffix_ok: Proofs/MemFsRename.v) *)
+Theorem C01_rename_moves_subtree : forall s p q,
+  WF s -> wf_op s (Rename p q) = true ->
+  let old := normalize_path p in let new := normalize_path q in
+  lookup s old <> None -> old <> new ->
+  let s' := fst (m_step s (Rename p q)) in
+  snd (m_step s (Rename p q)) = ROk /\ WF s' /\
+  (forall rest, suffix_ok rest -> entry_at s' (new ++ rest) = entry_at s (old ++ rest)) /\
+  (forall rest, suffix_ok rest -> entry_at s' (old ++ rest) = None) /\
+  (forall k, ~ atbelow old k -> ~ atbelow new k -> entry_at s' k = entry_at s k).
+Proof. exact rename_moves_subtree. Qed.
+Print Assumptions C01_rename_moves_subtree.
+
 (* ---------- non-vacuity ---------- *)
 Local Open Scope N_scope.
 Definition c01_demo : list op :=
@@ -124,3 +141,14 @@ Example C01_ex_pages : wf_seq m_init c01_demo3 = true /\
   skipn 5 (snd (run_steps m_step m_init c01_demo3)) =
   [ RNames [[97];[98]] None; RNames [[99]] None; RNames [] (Some (E KEOF)); RHandle 3; RNames [[97];[98];[99]] None ].
 Proof. vm_compute. auto. Qed.
+
+(* a tree /a/b{/c,/f="\001\002\003"} moved to /x/y: the file is found under the new name *)
+Definition c01_demo4 : mst := fst (run_steps m_step m_init (firstn 5 c01_demo)).
+Example C01_ex_rename :
+  wf_op c01_demo4 (Rename [47;97;47;98] [47;120;47;121]) = true /\
+  lookup c01_demo4 [47;97;47;98] <> None /\
+  entry_at c01_demo4 [47;97;47;98;47;102] = Some (false, [1;2;3], mode_temporary, (BIG + 3)%Z) /\
+  entry_at (fst (m_step c01_demo4 (Rename [47;97;47;98] [47;120;47;121]))) [47;120;47;121;47;102]
+    = Some (false, [1;2;3], mode_temporary, (BIG + 3)%Z) /\
+  entry_at (fst (m_step c01_demo4 (Rename [47;97;47;98] [47;120;47;121]))) [47;97;47;98;47;102] = None.
+Proof. vm_compute. repeat split; auto; discriminate. Qed.
